@@ -7,6 +7,7 @@
  R7.3 a column keeps one role: assigning a role erases the identifier from every role list first; deleting a column erases
       it from every role list
  R7.4 every designator container parameter of a public method is used through its elements, not only its size
+ R7.6 a role rank received as a parameter is compared with the length of the role list before it indexes it
  R7.5 the file-static scratch buffers of the Db sources are refilled before every read (no value carried over from the
       previous call / another Db); file-static hidden arguments are assigned before the calls that read them
 """
@@ -253,6 +254,62 @@ def r7_4(prog, chk):
     chk.floor("R7.4", n, 40)
 
 
+def r7_6(prog, chk):
+    """a role rank received as a PARAMETER indexes a role list only after it was compared with the length of that list
+    (or the list was resized for it): the lookup by (role, rank) answers -1 / does nothing for a rank that does not exist"""
+    from e1_paths import CFG, single_def
+    n = 0
+    for f in sorted(prog.funcs, key=lambda x: (x.file, x.line)):
+        if f.cls != "Db" or f.cfg is None:
+            continue
+        params = {p["d"]: p["n"] for p in f.params}
+        g = None
+        for c in f.calls():
+            short = (c.get("callee") or "").split("::")[-1]
+            if short not in ("getLocatorByIndex", "setLocatorByIndex") or not (c.get("callee") or "").startswith("PtrGeos::"):
+                continue
+            a = call_args(c)
+            idx = a[0] if a else None
+            while idx is not None and idx["k"] == "Cast":
+                idx = idx["c"][0]
+            if idx is None or idx["k"] != "DeclRefExpr" or idx.get("d") not in params:
+                continue
+            n += 1
+            chk.analysed(f)
+            if g is None:
+                g = CFG(f)
+            pd = idx["d"]
+
+            def is_size(e, depth=0):
+                if e is None or depth > 3:
+                    return False
+                for y in walk(e):
+                    if y["k"] == "MCall" and (y.get("callee") or "").split("::")[-1] in ("getLocatorNumber", "isLocatorIndexValid", "getFromLocatorNumber"):
+                        return True
+                    if y["k"] == "DeclRefExpr" and y.get("dk") == "var":
+                        d = single_def(f, y["d"])
+                        if d is not None and d is not y and is_size(d, depth + 1):
+                            return True
+                return False
+            guards = set()
+            for b, blk in g.blocks.items():
+                if len(blk["s"]) != 2:
+                    continue
+                cnd = g.nodes.get(blk.get("tc")) if blk.get("tc") is not None and blk.get("tc") >= 0 else None
+                if cnd is None:
+                    continue
+                if any(y["k"] == "DeclRefExpr" and y.get("d") == pd for y in walk(cnd)) and is_size(cnd):
+                    guards.add(b)
+            wit = g.search(g.entry_pos(), is_target=lambda y, c=c: y["i"] == c["i"], edge_ok=lambda blk, k, s_: blk["b"] not in guards) if g.pos_of(c) else None
+            ok = wit is None
+            chk.ob("R7.6", "%s: the role rank `%s` is compared with the length of the role list before it indexes it" % (f.sig(), params[pd]),
+                   f.loc(c), ok,
+                   detail=None if ok else "the rank comes from the caller and indexes the role list unchecked: for a role the Db does not hold (or a rank "
+                   "beyond the last one) the lookup reads outside the list instead of answering -1",
+                   key="R7.6|%s/%d|%s" % (f.name, len(f.params), short), path=None if ok else g.describe(wit))
+    chk.floor("R7.6", n, 3)
+
+
 def main(tier):
     chk = Check("C07", tier,
                 "Static structural clauses of Db consistency: the internal maps are private; every method that changes the shape of "
@@ -274,6 +331,7 @@ def main(tier):
     r7_2(prog, chk)
     r7_3(prog, chk)
     r7_4(prog, chk)
+    r7_6(prog, chk)
     # R7.5 no state carried from one call to the next through file-statics of the Db sources
     import c10
     c10.scratch_static_rule(prog, chk, ["src/Db/Db.cpp"], "R7.5", 1)
